@@ -908,6 +908,9 @@ func unop(fr *frame, instr *ssa.UnOp, x value) value {
 			return -x
 		}
 	case token.MUL:
+		if sp, ok := x.(symElemPtr); ok {
+			return i.x.tableLookup(sp.base, sp.idx)
+		}
 		p := x.(*value)
 		if p == nil {
 			panic(runtimeError("invalid memory address or nil pointer dereference"))
